@@ -165,10 +165,13 @@ CHECKS = {
  "C15": ("Theorems about Model/Describe.v (describe, describeChildren, collectDescribeRefs, ParserFromRuntype.describe): the alias table "
          "has one entry per name and the rendered list of declarations has no duplicate, every call restores the active set, and "
          "describeChildren() covers every component describe() descends into (C15_aliases_declared_once, C15_describe_restores_active, "
-         "C15_children_complete). The model is tied to codegen-v2.ts by comparing describe() text on generated validator trees. "
-         "Partial: termination on recursive types and the round trip through the compiler are not theorems (the compiler frontend is "
-         "not modelled); they are decided by a search on the implementation: describe -> compile the text -> validate()/hash256() of "
-         "both generations.",
+         "C15_children_complete); termination on recursive types (C15_describe_terminates_on_recursive_types: counting enters every "
+         "name once, unconditionally; printing never exhausts fuel above (|env|+1)(R+1)(H+1) whenever the types printed in place "
+         "descend along a rank function, a decidable condition on the reference counts that the check evaluates on every generated "
+         "case). The model is tied to codegen-v2.ts by comparing describe() text on generated validator trees. "
+         "Partial: that collectDescribeRefs always yields counts meeting the condition, and the round trip through the compiler, are "
+         "not theorems (the compiler frontend is not modelled); the round trip is decided by a search on the implementation: "
+         "describe -> compile the text -> validate()/hash256() of both generations.",
          "Descriptions are strings; generated programs use the constructs of tools/lib/tsgen.py plus forced families (recursion through "
          "every container, non-identifier keys, bigint, names Object.prototype defines, generics, doc comments)."),
  "C13": ("Theorems: C13_writer_is_sha256 — for every sequence of writes (all chunkings, block boundaries, both padding branches, "
